@@ -159,3 +159,66 @@ func init() {
 		fmt.Println("band :", s)
 	}
 }
+
+func init() {
+	// lwstatic dump e1join: interpret joinserver.handleJoinRequestWrapper on a symbolic join-request (feasibility probe)
+	dumpers["e1join"] = func(p *load.Program, args []string) {
+		in := absint.NewInterp(p)
+		st, err := c16JoinInputs(in, true, true, true)
+		if err != nil {
+			fmt.Println("inputs:", err)
+			return
+		}
+		if len(args) > 0 && args[0] == "err" {
+			var res []absint.Value
+			e := in.Try(func() {
+				in.SetLive(in.D.M.Not(st.micOK))
+				res = in.CallFunc("backend/joinserver", "handleJoinRequest", st.req, st.dk, st.asLabel, st.asKEK, st.nsLabel, st.nsKEK)
+			})
+			if e != nil {
+				fmt.Println("UNDECIDED:", e)
+				return
+			}
+			var wres []absint.Value
+			e = in.Try(func() {
+				in.SetLive(in.D.M.Not(st.micOK))
+				wres = in.CallFunc("backend/joinserver", "handleJoinRequestWrapper", st.req, st.dk, st.asLabel, st.asKEK, st.nsLabel, st.nsKEK)
+			})
+			if e != nil {
+				fmt.Println("wrapper UNDECIDED:", e)
+			} else {
+				fmt.Println("wrapper result code:", in.Show(c16Field(wres[0], "BasePayloadResult", "Result", "ResultCode")))
+			}
+			if ev, ok := res[1].(*absint.ErrVal); ok {
+				fmt.Printf("NonNil=%s Tag=%q Cause=%q\n", in.D.Describe(ev.NonNil), ev.Tag, ev.Cause)
+				for t, c := range ev.TagG {
+					fmt.Printf("  TagG %s: %s\n", t, in.D.Describe(c))
+				}
+				for t, c := range ev.CauseG {
+					fmt.Printf("  CauseG %s: %s\n", t, in.D.Describe(c))
+				}
+			} else {
+				fmt.Printf("%T\n", res[1])
+			}
+			return
+		}
+		n := 0
+		forParts(in, st.dom, 10, func(dom absint.Node, tag string) error {
+			var res []absint.Value
+			if e := in.Try(func() {
+				in.SetLive(dom)
+				res = in.CallFunc("backend/joinserver", "handleJoinRequestWrapper", st.req, st.dk, st.asLabel, st.asKEK, st.nsLabel, st.nsKEK)
+			}); e != nil {
+				return e
+			}
+			n++
+			s := in.Show(res[0])
+			if len(s) > 1500 {
+				s = s[:1500]
+			}
+			fmt.Printf("PART %q: %s\n", tag, s)
+			return nil
+		}, func(tag string, e error) { fmt.Printf("PART %q UNDECIDED: %v\n", tag, e) })
+		fmt.Println("parts:", n)
+	}
+}
